@@ -524,6 +524,8 @@ def check(run, terrs):
     cases, fcases = enumerate_cases(run)
     failures, model_diffs = correspond(run, binary, cases, fcases)
     side_probe_debug_format(run, binary)
+    # smallest failing inputs first (the replay names the first one)
+    failures.sort(key=lambda f: (len(f.get("case", {}).get("jsonnet", "")), f.get("case", {}).get("path", "")))
     kinds = {}
     for f in failures:
         k = ("known:" + f["known"]) if f.get("known") else f.get("what", "?")[:60]
@@ -630,8 +632,8 @@ def compare(expected, got, path="$", tol=0):
 
 # Coq parses ~2-4k list elements per second: the model side is budgeted in source bytes
 MODEL_CASE_MAX = 700
-MODEL_BUDGET_QUICK = 60000
-MODEL_BUDGET_THOROUGH = 2500000
+MODEL_BUDGET_QUICK = 45000
+MODEL_BUDGET_THOROUGH = 600000
 def digest(bs):
     a = c = 0
     for b in bs:
@@ -923,7 +925,8 @@ def replay(run, data):
         reqs.append({"code": code, "out": path})
     else:
         reqs.append({"code": f"local v = {code}; {{ manifestJson: std.manifestJson(v), minified: "
-                             f"std.manifestJsonMinified(v), toString: std.toString(v) }}"})
+                             f"std.manifestJsonMinified(v), toString: std.toString(v), "
+                             f"parsed: std.parseJson(std.manifestJsonMinified(v)) }}"})
     outs = core.run_harness(binary, "eval", reqs)
     print("jsonnet :", code)
     print("path    :", path)
